@@ -57,6 +57,8 @@ func main() {
 			genC06(rng, *n, *tier)
 		case "C07":
 			genC07(rng, *n, *tier)
+		case "C08":
+			genC08(rng, *n, *tier)
 		case "C09":
 			genC09(rng, *n, *tier)
 		default:
